@@ -671,7 +671,122 @@ pub fn run(args: &Args) -> Report {
     if args.wants("C10") {
         public_part(args, &mut report);
     }
+    blackhole_part(args, &mut report);
     report
+}
+
+/// Public path with a candidate that never completes: a loopback listener whose accept queue is full drops
+/// further SYNs, so a connect to it neither succeeds nor fails. Real time, one-sided margins.
+fn blackhole_part(args: &Args, report: &mut Report) {
+    use hyperdriver::client::conn::transport::tcp::{TcpTransport, TcpTransportConfig};
+    use std::net::SocketAddr;
+    use std::time::Instant;
+    let rt = tokio::runtime::Builder::new_current_thread().enable_all().build().unwrap();
+    let rounds = if args.tier_thorough { 6 } else { 1 };
+    for round in 0..rounds {
+        let res = rt.block_on(async {
+            // build the black hole
+            let socket = tokio::net::TcpSocket::new_v4().ok()?;
+            socket.bind("127.0.0.1:0".parse().unwrap()).ok()?;
+            let listener = socket.listen(1).ok()?;
+            let hole: SocketAddr = listener.local_addr().ok()?;
+            let mut fillers = Vec::new();
+            let mut full = false;
+            for _ in 0..32 {
+                match tokio::time::timeout(Duration::from_millis(250), tokio::net::TcpStream::connect(hole)).await {
+                    Ok(Ok(s)) => fillers.push(s),
+                    Ok(Err(_)) => return None,
+                    Err(_) => {
+                        full = true;
+                        break;
+                    }
+                }
+            }
+            if !full {
+                return None;
+            }
+            let good = tokio::net::TcpListener::bind("127.0.0.1:0").await.ok()?;
+            let good_addr = good.local_addr().ok()?;
+            let mut out: Vec<(&'static str, Result<Option<SocketAddr>, String>, u128)> = Vec::new();
+            // (a) a single never-completing candidate: the overall deadline bounds the operation
+            let mut cfg = TcpTransportConfig::default();
+            cfg.happy_eyeballs_timeout = Some(Duration::from_millis(300));
+            cfg.connect_timeout = Some(Duration::from_secs(4));
+            cfg.happy_eyeballs_concurrency = [Some(1), Some(2), None][round % 3];
+            let t: TcpTransport = TcpTransport::builder().with_config(cfg.clone()).with_gai_resolver().build();
+            let t0 = Instant::now();
+            let r = tokio::time::timeout(Duration::from_secs(8), t.connect_to_addrs([hole])).await;
+            out.push(("single-black-hole", match r { Err(_) => Err("WATCHDOG".into()), Ok(Ok(s)) => Ok(s.peer_addr().ok()), Ok(Err(e)) => Err(e.to_string()) }, t0.elapsed().as_millis()));
+            // (b) black hole first, listening address second, one attempt at a time: the second attempt is
+            //     released by the stagger tick (timeout / n = 300 ms), not earlier, and wins
+            let mut cfg = TcpTransportConfig::default();
+            cfg.happy_eyeballs_timeout = Some(Duration::from_millis(600));
+            cfg.connect_timeout = Some(Duration::from_secs(4));
+            cfg.happy_eyeballs_concurrency = Some(1);
+            let t: TcpTransport = TcpTransport::builder().with_config(cfg).with_gai_resolver().build();
+            let t0 = Instant::now();
+            let r = tokio::time::timeout(Duration::from_secs(8), t.connect_to_addrs([hole, good_addr])).await;
+            out.push(("black-hole-then-listening", match r { Err(_) => Err("WATCHDOG".into()), Ok(Ok(s)) => Ok(s.peer_addr().ok()), Ok(Err(e)) => Err(e.to_string()) }, t0.elapsed().as_millis()));
+            drop(fillers);
+            drop(listener);
+            Some((out, good_addr))
+        });
+        let Some((out, good_addr)) = res else {
+            for id in ["C10", "C11"] {
+                if args.wants(id) {
+                    report.prop(id, if id == "C10" { RULE10 } else { RULE11 }).count("blackhole_could_not_be_built", 1);
+                }
+            }
+            continue;
+        };
+        for (name, result, ms) in out {
+            let replay = json!({"engine": "eyeballs", "public": true, "blackhole_trial": name});
+            if matches!(&result, Err(e) if e == "WATCHDOG") {
+                for id in ["C10", "C11"] {
+                    if args.wants(id) {
+                        report.prop(id, "").inconclusive.push(format!("black-hole trial {name}: 8 s watchdog fired"));
+                    }
+                }
+                continue;
+            }
+            if args.wants("C10") {
+                let p = report.prop("C10", RULE10);
+                p.eval(Some(hash_of(&("blackhole", name, round))));
+                p.count("blackhole_trials", 1);
+                match (name, &result) {
+                    ("single-black-hole", Ok(_)) => p.violation("public:ok-from-never-completing-candidate", format!("{name}: {result:?}"), replay.clone()),
+                    ("black-hole-then-listening", Ok(peer)) if *peer != Some(good_addr) => p.violation("public:connected-to-wrong-candidate", format!("{name}: peer {peer:?}"), replay.clone()),
+                    ("black-hole-then-listening", Err(e)) => p.violation("public:error-although-a-candidate-listens", format!("{name}: {e}"), replay.clone()),
+                    _ => {}
+                }
+            }
+            if args.wants("C11") {
+                let p = report.prop("C11", RULE11);
+                p.eval(Some(hash_of(&("blackhole", name, round))));
+                p.count("blackhole_trials", 1);
+                if p.samples.len() < 6 {
+                    p.sample(json!({"public_blackhole_trial": name, "elapsed_ms": ms as u64, "result": format!("{result:?}")}));
+                }
+                match name {
+                    "single-black-hole" => {
+                        // deadline 300 ms; generous one-sided margin for a loaded machine
+                        if ms > 300 + 1200 {
+                            p.violation("public:deadline-not-enforced:single-candidate", format!("{name}: finished after {ms} ms with an overall deadline of 300 ms (connect_timeout 4 s)"), replay.clone());
+                        }
+                    }
+                    _ => {
+                        // stagger = 600 ms / 2 = 300 ms: the listening candidate must not be tried before ~300 ms
+                        if result.is_ok() && ms + 60 < 300 {
+                            p.violation("public:second-attempt-before-stagger-delay", format!("{name}: connected after {ms} ms although the stagger delay is 300 ms and the first candidate had not failed"), replay.clone());
+                        }
+                        if ms > 600 + 1200 {
+                            p.violation("public:deadline-not-enforced:two-candidates", format!("{name}: finished after {ms} ms with an overall deadline of 600 ms"), replay.clone());
+                        }
+                    }
+                }
+            }
+        }
+    }
 }
 
 /// Public path: `TcpTransport::connect_to_addrs` on loopback: error mapping of the transport.
